@@ -243,6 +243,9 @@ class Iface(Ty):
     def __init__(self, iface):
         self.iface = iface
 
+    def resolved(self):
+        return self.iface() if isinstance(self.iface, types.FunctionType) else self.iface
+
     def make(self, interp, name):
         iface = self.iface() if isinstance(self.iface, types.FunctionType) else self.iface
         return new_opaque(interp, iface, name)
@@ -284,7 +287,7 @@ class ListOf(Ty):
         def elem(interp2, idx_term, uid=uid):
             return make_indexed(interp2, elem_ty, uid, idx_term)
 
-        xs = SList(n, elem, uid)
+        xs = SList(n, elem, uid, ident=(uid, ()))
         xs.elem_ty = elem_ty
         return xs
 
@@ -296,8 +299,34 @@ class ListOf(Ty):
         return [self.elem.concrete(cx, '%s[%d]' % (name, i)) for i in range(n)]
 
 
+class MapOf(Ty):
+    """dict with symbolic contents (unbounded): keys of shape ``key`` (Str / Int), values of shape ``val``
+    (Str / Int / Bool, or ``Iface`` of a by-id interface).  Supports in, [], []=, del, get, pop,
+    setdefault, update, copy, dict(d), copy.copy(d), ==, clear; not iteration / len.
+    Opaque keys: objects whose interface names the attribute that decides their equality (``map_key``).
+    A value shape without scalar sort (``Any_``, an interface that is not by-id; default) means that the
+    values are not tracked: only the key set is symbolic, a read gives an arbitrary value of that shape."""
+
+    def __init__(self, key, val=None):
+        self.key = key
+        self.val = val
+
+    def make(self, interp, name):
+        from . import models
+        return models.new_smap(interp, name, self.key, self.val)
+
+
+class Derived:
+    """Interface attribute computed from the object by a sidecar function (interpreted on every read),
+    e.g. a property of the real class that only combines other attributes."""
+
+    def __init__(self, fn):
+        self.fn = fn
+
+
 class MListOf(Ty):
-    """A *mutable* list of symbolic length whose elements are ints / bools / strings or tuples of these
+    """A *mutable* list of symbolic length whose elements are ints / bools / strings, tuples of these, optional
+    values, indexed opaque objects (`RefTo`), opaque objects with an `mlist_codec`, or records (`Inst`) of these
     (pyvc.mlist.MList): results accumulated in loops, out-parameters.  In `M.loop(... modifies=...)` the
     list is havocked in place."""
 
@@ -321,9 +350,28 @@ class MListOf(Ty):
         return ListOf(self.elem).concrete(cx, name)
 
 
+class RefTo(Ty):
+    """Element type for MListOf: an opaque object that is a function of `arity` integer index terms -- an element
+    of the symbolic sequence of interface objects whose uid is `uid[:-2]` (uid ends in '[]'), or the structured
+    result of a pure interface method ('<object uid>.<method>()')."""
+
+    def __init__(self, iface, uid, arity=1):
+        self.iface, self.uid, self.arity = iface, uid, arity
+
+
 def _mshape(ty):
     if isinstance(ty, FixedList):
         return ('tuple', tuple(_mshape(t) for t in ty.elems))
+    if isinstance(ty, Opt):
+        return ('opt', _mshape(ty.inner))
+    if isinstance(ty, RefTo):
+        return ('ref', ty.iface, ty.uid, ty.arity)
+    if isinstance(ty, Iface):
+        iface = ty.iface() if isinstance(ty.iface, types.FunctionType) else ty.iface
+        if getattr(iface, 'mlist_codec', None) is not None:
+            return ('codec', iface)
+    if isinstance(ty, Inst):
+        return ('inst', ty.cls, tuple((k, _mshape(t)) for k, t in ty.fields.items()))
     if isinstance(ty, _Int):
         return ('int',)
     if isinstance(ty, _Bool):
@@ -388,6 +436,19 @@ class CtxOf(Ty):
             return None
 
         return GenObj(interp, runner, name)
+
+
+class FixedDict(Ty):
+    """A concrete dict with exactly the given (concrete) keys; the values have the given shapes."""
+
+    def __init__(self, **fields):
+        self.fields = fields
+
+    def make(self, interp, name):
+        return {k: t.make(interp, '%s[%s]' % (name, k)) for k, t in self.fields.items()}
+
+    def concrete(self, cx, name):
+        return {k: t.concrete(cx, '%s[%s]' % (name, k)) for k, t in self.fields.items()}
 
 
 class Opaq(Ty):
@@ -467,33 +528,36 @@ class InPlaceBy:
         self.fn(interp, obj, tag)
 
 
-def make_indexed(interp, ty, uid, idx_term):
+def make_indexed(interp, ty, uid, idx_term, prefix=()):
     """Element of an SList at a symbolic index: scalar fields become applications of
-    uninterpreted functions to the index, so equal indices give equal elements."""
+    uninterpreted functions to the index, so equal indices give equal elements.
+    ``prefix``: index terms of the owner when the list is itself an attribute of an indexed object."""
     st = interp.st
+    idx = tuple(prefix) + (idx_term,)
+    sorts = [x.sort() if hasattr(x, "sort") else z3.IntSort() for x in idx]
     if isinstance(ty, _Int):
-        f = z3.Function(uid + '[]', z3.IntSort(), z3.IntSort())
-        t = f(idx_term)
+        f = z3.Function(uid + '[]', *(sorts + [z3.IntSort()]))
+        t = f(*idx)
         if ty.lo is not None:
-            st.assume(t >= ty.lo)
+            st.assume_unscoped(t >= ty.lo)
         if ty.hi is not None:
-            st.assume(t <= ty.hi)
+            st.assume_unscoped(t <= ty.hi)
         return SInt(t)
     if isinstance(ty, _Bool):
-        f = z3.Function(uid + '[]', z3.IntSort(), z3.BoolSort())
-        return SBool(f(idx_term))
+        f = z3.Function(uid + '[]', *(sorts + [z3.BoolSort()]))
+        return SBool(f(*idx))
     if isinstance(ty, _Str):
-        f = z3.Function(uid + '[]', z3.IntSort(), z3.StringSort())
-        return SStr(f(idx_term))
+        f = z3.Function(uid + '[]', *(sorts + [z3.StringSort()]))
+        return SStr(f(*idx))
     if isinstance(ty, Iface):
         iface = ty.iface() if isinstance(ty.iface, types.FunctionType) else ty.iface
-        return new_opaque(interp, iface, uid + '[]', index=(idx_term,))
+        return new_opaque(interp, iface, uid + '[]', index=idx)
     if isinstance(ty, Opaq):
-        return OpaqueVal('%s[%s]' % (uid, z3.simplify(idx_term)))
+        return OpaqueVal('%s[%s]' % (uid, ','.join(str(z3.simplify(t)) for t in idx)))
     if isinstance(ty, FixedList):
-        vals = [make_indexed(interp, t, '%s.%d' % (uid, i), idx_term) for i, t in enumerate(ty.elems)]
+        vals = [make_indexed(interp, t, '%s.%d' % (uid, i), idx_term, prefix) for i, t in enumerate(ty.elems)]
         return tuple(vals) if ty.as_tuple else vals
-    return indexed_value(interp, ty, uid + '[]', (idx_term,))
+    return indexed_value(interp, ty, uid + '[]', idx)
 
 
 def indexed_value(interp, ty, base, idx):
@@ -501,13 +565,14 @@ def indexed_value(interp, ty, base, idx):
     sequence, or a component of such an element): scalars are applications of uninterpreted functions
     named after ``base``, real instances (`Inst`) are built from indexed fields."""
     st = interp.st
-    sorts = [z3.IntSort()] * len(idx)
+    idx = tuple(idx)
+    sorts = [x.sort() if hasattr(x, 'sort') else z3.IntSort() for x in idx]
     if isinstance(ty, _Int):
         t = z3.Function(base, *(sorts + [z3.IntSort()]))(*idx)
         if ty.lo is not None:
-            st.assume(t >= ty.lo)
+            st.assume_unscoped(t >= ty.lo)
         if ty.hi is not None:
-            st.assume(t <= ty.hi)
+            st.assume_unscoped(t <= ty.hi)
         return SInt(t)
     if isinstance(ty, _Bool):
         return SBool(z3.Function(base, *(sorts + [z3.BoolSort()]))(*idx))
@@ -516,19 +581,21 @@ def indexed_value(interp, ty, base, idx):
     if isinstance(ty, Opt):
         isn = z3.Function(base + '.is_none', *(sorts + [z3.BoolSort()]))(*idx)
         return SOpt(isn, indexed_value(interp, ty.inner, base, idx))
-    if isinstance(ty, Iface) and not isinstance(ty, Involution):
-        iface = ty.iface() if isinstance(ty.iface, types.FunctionType) else ty.iface
-        return new_opaque(interp, iface, base, index=idx)
+    if isinstance(ty, Const):
+        return ty.value
     if isinstance(ty, OneOf):
         if len(ty.values) == 1:
             return ty.values[0]
         t = z3.Function(base + '.idx', *(sorts + [z3.IntSort()]))(*idx)
-        st.assume(z3.And(t >= 0, t < len(ty.values)))
+        st.assume_unscoped(z3.And(t >= 0, t < len(ty.values)))
         return SChoice(t, ty.values)
-    if isinstance(ty, Const):
-        return ty.value
+    if isinstance(ty, Involution):
+        raise Unsupported('indexed element of type Involution (use it as an attribute)')
+    if isinstance(ty, Iface):
+        iface = ty.iface() if isinstance(ty.iface, types.FunctionType) else ty.iface
+        return new_opaque(interp, iface, base, index=idx)
     if isinstance(ty, Opaq):
-        return OpaqueVal('%s[%s]' % (base, ', '.join(str(z3.simplify(i)) for i in idx)))
+        return OpaqueVal('%s(%s)' % (base, ','.join(str(z3.simplify(i)) for i in idx)))
     if isinstance(ty, Inst):
         cls = ty.cls
         if ty.tuple_items is not None:
@@ -542,9 +609,26 @@ def indexed_value(interp, ty, base, idx):
             v = indexed_value(interp, t, '%s.%s' % (base, k), idx) if isinstance(t, Ty) else t
             object.__setattr__(obj, k, v)
         if ty.invariant is not None:
-            st.assume(interp.truth(interp.call(ty.invariant, [obj], {})))
+            st.assume_unscoped(interp.truth(interp.call(ty.invariant, [obj], {})))
         return obj
-    raise Unsupported('indexed value of type %r' % (ty,))
+    if isinstance(ty, FixedList):
+        vals = [indexed_value(interp, t, '%s[%d]' % (base, i), idx) for i, t in enumerate(ty.elems)]
+        return tuple(vals) if ty.as_tuple else vals
+    if isinstance(ty, FixedDict):
+        return {k: indexed_value(interp, t, '%s[%s]' % (base, k), idx) for k, t in ty.fields.items()}
+    if isinstance(ty, ListOf):
+        n = z3.Function(base + '.len', *(sorts + [z3.IntSort()]))(*idx)
+        st.assume_unscoped(n >= ty.min_len)
+        elem_ty = ty.elem
+
+        def elem(interp2, idx_term, base=base, idx=idx):
+            return indexed_value(interp2, elem_ty, base + '[]', tuple(idx) + (idx_term,))
+
+        out = SList(n, elem, '%s<%s>' % (base, ','.join(z3.simplify(i).sexpr() for i in idx)),
+                    ident=(base, tuple(idx)))
+        out.elem_ty = elem_ty
+        return out
+    raise Unsupported('indexed element of type %r' % (ty,))
 
 
 # ============================================================================ interfaces (opaque objects)
@@ -587,12 +671,43 @@ class Interface:
     props = {}
     attr_raises = {}
     methods = {}
+    computed = {}          # {name: fn(interp, obj) -> value}: attributes that are functions of the object
     invariant = None
     truthy = True
 
 
-def new_opaque(interp, iface, name, index=(), preset=None):
+def universe_of(iface):
+    """Name of the id space of a by-id interface: shared by all its sub-interfaces."""
+    root = iface
+    for k in iface.__mro__:
+        if k.__dict__.get('by_id'):
+            root = k
+    return 'U.' + root.__name__
+
+
+def opaque_of_id(interp, iface, id_term):
+    """The object of by-id interface ``iface`` with the given id: all its attributes are functions of the id."""
+    return new_opaque(interp, iface, universe_of(iface), index=(id_term,), _is_id=True)
+
+
+def same_object(a, b):
+    """Identity of two opaque objects where the engine can tell: by-id objects of one universe."""
+    ia, ib = a._pv_iface, b._pv_iface
+    if getattr(ia, 'by_id', False) and getattr(ib, 'by_id', False) and isinstance(ia, type) and isinstance(ib, type):
+        if universe_of(ia) == universe_of(ib) and len(a._pv_index) == 1 and len(b._pv_index) == 1:
+            return wrap(a._pv_index[0] == b._pv_index[0])
+    return None
+
+
+def new_opaque(interp, iface, name, index=(), preset=None, _is_id=False):
     st = interp.st
+    if getattr(iface, 'by_id', False) and not _is_id:
+        # objects identified by an integer id (ghost address): a fresh id, or a function of the owner's index
+        if index:
+            idt = z3.Function(name + ".id", *([x.sort() for x in index] + [z3.IntSort()]))(*index)
+        else:
+            idt = st.fresh_int(name + '.id')
+        name, index = universe_of(iface), (idt,)
     uid = st.fresh_name(name) if not index else name
     o = Opaque(iface, uid)
     o.__dict__['_pv_index'] = tuple(index)
@@ -606,11 +721,11 @@ def new_opaque(interp, iface, name, index=(), preset=None):
                 break
     if inv is not None:
         f = inv.__func__ if isinstance(inv, staticmethod) else inv
-        assume_pred(interp, f, o)
+        assume_pred(interp, f, o, unscoped=True)
     return o
 
 
-def assume_pred(interp, pred, *args):
+def assume_pred(interp, pred, *args, unscoped=False):
     """Assume a sidecar predicate; parameters beyond the given arguments are ghosts, by name."""
     from .loops import _param_names
     names = _param_names(pred)
@@ -619,7 +734,11 @@ def assume_pred(interp, pred, *args):
         if n not in interp.reg.ghost_env:
             raise Unsupported('predicate %s needs ghost %r which is not in scope' % (getattr(pred, '__name__', pred), n))
         extra.append(interp.reg.ghost_env[n])
-    interp.st.assume(interp.truth(interp.call(pred, list(args) + extra, {})))
+    v = interp.truth(interp.call(pred, list(args) + extra, {}))
+    if unscoped:
+        interp.st.assume_unscoped(v)
+    else:
+        interp.st.assume(v)
 
 
 def _iface_lookup(iface, table, name):
@@ -631,25 +750,11 @@ def _iface_lookup(iface, table, name):
 
 
 def _indexed_scalar(interp, o, name, ty):
-    """Scalar attribute of an indexed opaque: function of the index."""
+    """Attribute of an indexed opaque: function of the index."""
     idx = o._pv_index
     st = interp.st
     base = '%s.%s' % (o._pv_uid, name)
     sorts = [x.sort() for x in idx]
-    if isinstance(ty, _Int):
-        t = z3.Function(base, *(sorts + [z3.IntSort()]))(*idx)
-        if ty.lo is not None:
-            st.assume(t >= ty.lo)
-        if ty.hi is not None:
-            st.assume(t <= ty.hi)
-        return SInt(t)
-    if isinstance(ty, _Bool):
-        return SBool(z3.Function(base, *(sorts + [z3.BoolSort()]))(*idx))
-    if isinstance(ty, _Str):
-        return SStr(z3.Function(base, *(sorts + [z3.StringSort()]))(*idx))
-    if isinstance(ty, Opt):
-        isn = z3.Function(base + '.is_none', *(sorts + [z3.BoolSort()]))(*idx)
-        return SOpt(isn, _indexed_scalar(interp, o, name, ty.inner))
     if isinstance(ty, Involution):
         return ty.make_attr(interp, base, o, index=idx)
     if isinstance(ty, Iface):
@@ -657,10 +762,20 @@ def _indexed_scalar(interp, o, name, ty):
         return new_opaque(interp, iface, base, index=idx)
     if isinstance(ty, OneOf):
         t = z3.Function(base + '.idx', *(sorts + [z3.IntSort()]))(*idx)
-        st.assume(z3.And(t >= 0, t < len(ty.values)))
+        st.assume_unscoped(z3.And(t >= 0, t < len(ty.values)))
         return SChoice(t, ty.values) if len(ty.values) > 1 else ty.values[0]
     if isinstance(ty, Const):
         return ty.value
+    if isinstance(ty, ListOf):
+        n = z3.Function(base + '.len', *(sorts + [z3.IntSort()]))(*idx)
+        st.assume_unscoped(n >= ty.min_len)
+        elem_ty = ty.elem
+
+        def elem(interp2, j, base=base, idx=idx):
+            return make_indexed(interp2, elem_ty, base, j, prefix=idx)
+
+        return SList(n, elem, '%s<%s>' % (base, ','.join(z3.simplify(t).sexpr() for t in idx)),
+                     ident=(base, tuple(idx)))
     return indexed_value(interp, ty, base, idx)
 
 
@@ -671,6 +786,9 @@ class Registry:
         self.contracts = {}        # qualified name -> Contract
         self.by_func = {}          # function object -> Contract
         self.models = {}           # callable -> model
+        self.scoped_models = {}    # property id -> {callable -> model}: Module.model(...) registrations apply only
+        #                            while a function of that property is verified (no cross-property clashes)
+        self.current_props = ()    # property ids of the function under verification
         self.loops = {}            # (qualified name, ordinal) -> LoopSpec
         self.loops_by_code = {}
         self.under_verification = None
@@ -723,7 +841,8 @@ class Registry:
         for key, ls in self.loops.items():
             q, ordinal = key[0], key[1]
             try:
-                obj, owner = frontend.resolve_qualified(q)
+                # a loop of a nested function: only the enclosing function can be resolved statically
+                obj, owner = frontend.resolve_qualified(q.partition('.<locals>')[0])
             except LookupError as e:
                 self.missing.append((q, str(e)))
                 continue
@@ -763,6 +882,19 @@ class Registry:
 
     def model_for(self, f):
         try:
+            # a callable modelled by several sidecar modules: the module whose function is being verified sees
+            # its own model; then the models of the modules it builds on (python imports between sidecar
+            # modules: C03 builds on C01's models, C17 on C04's); the ghost file system of C04 and the path
+            # model of C12 do not see each other
+            cur = getattr(self, 'current_module', None)
+            own = getattr(self, 'module_models', {}).get(cur)
+            m = own.get(f) if own else None
+            if m is not None:
+                return m
+            for p in getattr(self, 'current_scope', None) or getattr(self, 'current_props', ()):
+                m = self.scoped_models.get(p, {}).get(f)
+                if m is not None:
+                    return m
             m = self.models.get(f)
             if m is None:
                 # library models registered with pyvc.models.model(...) (also for the ghost primitives of
@@ -788,6 +920,8 @@ class Registry:
         if pm is not None:
             return pm(interp, o)       # computed property: model(interp, self), evaluated at every read
         ty = _iface_lookup(iface, 'attrs', name)
+        if isinstance(ty, Derived):
+            return interp.call(ty.fn, [o], {})
         if ty is not None:
             if o._pv_index:
                 v = _indexed_scalar(interp, o, name, ty)
@@ -795,6 +929,12 @@ class Registry:
                 v = ty.make_attr(interp, '%s.%s' % (o._pv_uid, name), o)
             else:
                 v = ty.make(interp, '%s.%s' % (o._pv_uid, name)) if isinstance(ty, Ty) else ty
+            o._pv_attrs[name] = v
+            return v
+        comp = _iface_lookup(iface, 'computed', name)
+        if comp is not None:
+            # an attribute that is a function of the object: computed on first access, then cached
+            v = comp(interp, o)
             o._pv_attrs[name] = v
             return v
         m = _iface_lookup(iface, 'methods', name)
@@ -813,7 +953,8 @@ class Registry:
     def opaque_has(self, interp, o, name):
         iface = o._pv_iface
         return _iface_lookup(iface, 'attrs', name) is not None or _iface_lookup(iface, 'methods', name) is not None \
-            or _iface_lookup(iface, 'props', name) is not None
+            or _iface_lookup(iface, 'props', name) is not None \
+            or _iface_lookup(iface, 'computed', name) is not None
 
     def opaque_type(self, interp, o):
         return o._pv_cls
@@ -953,14 +1094,7 @@ def call_opaque_method(interp, o, name, m, args, kwargs):
         st.assume(ok)
     if m.event is not None:
         st.emit(m.event, o, tuple(args))
-    if m.may_raise:
-        k = st.choose(1 + len(m.may_raise))
-        if k > 0:
-            factory = m.may_raise[k - 1]
-            exc = factory(interp, o) if isinstance(factory, types.FunctionType) else factory()
-            if m.event is not None:
-                st.emit(m.event + ':raised', o, exc)
-            raise PyRaise(exc)
+    key = None
     if m.pure:
         flat = []
         for a in args:
@@ -971,25 +1105,67 @@ def call_opaque_method(interp, o, name, m, args, kwargs):
         args = flat
         key = ('__call__', name, tuple(z3.simplify(to_z3(a)).sexpr() if isinstance(a, (Sym, int, str, bool))
                                         and not isinstance(a, (SOpt, SChoice, SList)) else id(a) for a in args))
+        # a pure method is a function of (object, arguments): the outcome of an earlier call -- value or
+        # exception -- is the outcome of this one
         if key in o._pv_attrs:
             return o._pv_attrs[key]
-        if all(isinstance(a, (SInt, SBool, SStr, int, str, bool)) for a in args) and \
-                isinstance(m.returns, (_Int, _Bool, _Str)):
-            sorts = [x.sort() for x in o._pv_index] + [to_z3(a).sort() for a in args]
+        if ('__raised__', key) in o._pv_attrs:
+            raise PyRaise(o._pv_attrs[('__raised__', key)])
+    if m.may_raise:
+        k = st.choose(1 + len(m.may_raise))
+        if k > 0:
+            factory = m.may_raise[k - 1]
+            exc = factory(interp, o) if isinstance(factory, types.FunctionType) else factory()
+            if m.event is not None:
+                st.emit(m.event + ':raised', o, exc)
+            if key is not None:
+                o._pv_attrs[('__raised__', key)] = exc
+            raise PyRaise(exc)
+    if m.pure:
+        terms = _pure_arg_terms(interp, args)
+        scalar_args = all(isinstance(a, (SInt, SBool, SStr, int, str, bool)) for a in args)
+        if terms is not None and isinstance(m.returns, (_Int, _Bool, _Str)):
+            # a ghost function of (object, arguments): scalars, by-id objects (their id), symbolic maps (their arrays)
+            sorts = [x.sort() for x in o._pv_index] + [t.sort() for t in terms]
             rs = {_Int: z3.IntSort(), _Bool: z3.BoolSort(), _Str: z3.StringSort()}[type(m.returns)]
             f = z3.Function('%s.%s()' % (o._pv_uid, name), *(sorts + [rs]))
-            r = wrap(f(*(list(o._pv_index) + [to_z3(a) for a in args])))
+            r = wrap(f(*(list(o._pv_index) + terms)))
             if isinstance(r, SInt) and m.returns.lo is not None:
                 st.assume(r.t >= m.returns.lo)
-        elif all(isinstance(a, (SInt, SBool, SStr, int, str, bool)) for a in args) and isinstance(m.returns, Iface):
-            # structured result of a pure method: an opaque object indexed by (object index, arguments),
-            # i.e. its attributes are functions of the arguments
-            iface = m.returns.iface() if isinstance(m.returns.iface, types.FunctionType) else m.returns.iface
-            r = new_opaque(interp, iface, '%s.%s()' % (o._pv_uid, name),
-                           index=tuple(o._pv_index) + tuple(to_z3(a) for a in args))
+            if m.may_raise and key is not None:
+                # the first outcome (here: a value) is the outcome of every later call with these arguments
+                o._pv_attrs[key] = r
         else:
-            r = m.returns.make(interp, '%s.%s()' % (o._pv_uid, name)) if m.returns is not None else None
-        o._pv_attrs[key] = r
+            key = ('__call__', name, tuple(z3.simplify(to_z3(a)).sexpr() if isinstance(a, (Sym, int, str, bool))
+                                            and not isinstance(a, (SOpt, SChoice, SList)) else id(a) for a in args))
+            if key in o._pv_attrs:
+                return o._pv_attrs[key]
+            if o._pv_index and not args and m.returns is not None and not isinstance(m.returns, Iface):
+                # result of a pure zero-argument method of an indexed object: a function of the index
+                r = _indexed_scalar(interp, o, name + '()', m.returns)
+            elif scalar_args and isinstance(m.returns, Iface) and (args or o._pv_index):
+                # structured result of a pure method: an opaque object indexed by (object index, arguments),
+                # i.e. its attributes are functions of the arguments
+                iface = m.returns.iface() if isinstance(m.returns.iface, types.FunctionType) else m.returns.iface
+                r = new_opaque(interp, iface, '%s.%s()' % (o._pv_uid, name),
+                               index=tuple(o._pv_index) + tuple(to_z3(a) for a in args))
+            elif m.returns is not None and args and all(isinstance(a, (SInt, SBool, SStr, int, str, bool, Opaque))
+                                                        for a in args) \
+                    and (o._pv_index or any(isinstance(a, Opaque) and a._pv_index for a in args)):
+                # a function of (object, arguments) where arguments are scalars or (indexed) opaque objects:
+                # the indices of the opaque arguments are arguments of the function(s) standing for the result
+                name_parts, idx_terms = [], list(o._pv_index)
+                for a in args:
+                    if isinstance(a, Opaque):
+                        name_parts.append(a._pv_uid)
+                        idx_terms.extend(a._pv_index)
+                    else:
+                        idx_terms.append(to_z3(a))
+                r = indexed_value(interp, m.returns, '%s.%s(%s)' % (o._pv_uid, name, ','.join(name_parts)),
+                                  tuple(idx_terms))
+            else:
+                r = m.returns.make(interp, '%s.%s()' % (o._pv_uid, name)) if m.returns is not None else None
+            o._pv_attrs[key] = r
     else:
         r = m.returns.make(interp, '%s.%s()' % (o._pv_uid, name)) if m.returns is not None else None
     if m.ensures is not None:
@@ -997,6 +1173,22 @@ def call_opaque_method(interp, o, name, m, args, kwargs):
     if m.event is not None:
         st.emit(m.event + ':returned', o, r)
     return r
+
+
+def _pure_arg_terms(interp, args):
+    from . import models
+    out = []
+    for a in args:
+        if isinstance(a, (SOpt, SChoice)):
+            return None
+        if isinstance(a, models.SMap):
+            out.extend(a.terms())
+            continue
+        t = models.term_of_value(a)
+        if t is None:
+            return None
+        out.append(t)
+    return out
 
 
 # ============================================================================ contracts
@@ -1038,7 +1230,7 @@ class Contract:
 
 
 class LoopSpec:
-    def __init__(self, qname, ordinal, invariant, modifies=None, decreases=None, ghosts=None, note=''):
+    def __init__(self, qname, ordinal, invariant, modifies=None, decreases=None, ghosts=None, note='', entry=None):
         self.qname = qname
         self.ordinal = ordinal
         self.invariant = invariant
@@ -1046,6 +1238,7 @@ class LoopSpec:
         self.decreases = decreases
         self.ghosts = ghosts or {}
         self.note = note
+        self.entry = entry          # optional snapshot expression evaluated at loop entry: `_entry` in the invariant
 
 
 class Module:
@@ -1058,9 +1251,10 @@ class Module:
         self.models = {}
         self.checks = []       # extra obligation generators: (name, fn(ctx))
         # contracts of OTHER sidecar modules at call sites of this module's functions:
-        #   'apply' (default) use them; 'fit' only when the arguments have the shapes the contract is stated
-        #   for, otherwise the real body is interpreted; 'ignore' never (always interpret the body)
-        self.foreign_contracts = 'apply'
+        #   'imports' (default) use the contracts of the sidecar modules this module imports (it was written
+        #   against them) and interpret the real body otherwise; 'apply' use every contract; 'fit' only when
+        #   the arguments have the shapes the contract is stated for; 'ignore' never
+        self.foreign_contracts = 'imports'
         self.bounded_checks = []   # bounded stand-ins: (name, fn(ctx)) -- never counted as proved
         self.transparent = []
         self.assumptions = []
